@@ -51,7 +51,18 @@ def self_test(pid):
     res = []
     seeds = sorted(glob.glob(os.path.join(VERIF, "seeded", f"{pid}-m*")))
     harmless = [("rename-local-in-toposort", "autograd/util.py", "s/childless_nodes/ready_nodes/g"), ("reorder-independent-statements", "autograd/tracer.py", "s/    top_boxes = \\[\\]\\n    top_node_type = None/    top_node_type = None\\n    top_boxes = []/")]
-    jobs = [(os.path.basename(d), ("patch", os.path.join(d, "patch.diff")), True) for d in seeds] + [(n, ("sed", f, e), False) for n, f, e in harmless]
+    if pid == "C18":   # retunings of the checker that stay inside the contract's bands
+        harmless += [("EPS=1e-5", "autograd/test_util.py", "s/\nEPS = 1e-6/\nEPS = 1e-5/"), ("TOL=2e-6", "autograd/test_util.py", "s/\nTOL = 1e-6/\nTOL = 2e-6/"),
+                     ("relative-measure-|a|+|b|", "autograd/test_util.py", "s#abs(a - b) / abs(a + b) < RTOL#abs(a - b) / (abs(a) + abs(b)) < RTOL#")]
+    # behaviour-preserving refactorings written by sub-agents (harmless/<region>-r<k>.diff): a rotating selection of 8 per property
+    hd = sorted(glob.glob(os.path.join(VERIF, "harmless", "*.diff")))
+    if hd:
+        k0 = int(pid[1:]) % len(hd)
+        pick = [hd[(k0 + 4 * i) % len(hd)] for i in range(min(8, len(hd)))]
+    else:
+        pick = []
+    jobs = ([(os.path.basename(d), ("patch", os.path.join(d, "patch.diff")), True) for d in seeds] + [(n, ("sed", f, e), False) for n, f, e in harmless]
+            + [("harmless/" + os.path.basename(h), ("patch", h), False) for h in dict.fromkeys(pick)])
     for name, how, must_fail in jobs:
         S = tempfile.mkdtemp(prefix="verif-selftest.")
         try:
